@@ -120,6 +120,9 @@ def run(ck, tier):
               message='%s receive loop differs from %s: %s' % (fe[0], REFERENCE, rdiff))
     ck.floor('R1', n, 6, 'front-ends compared')
     ck.guard(r5_no_reset_on_clean_iteration, ck, cx)
+    ck.rule('R6', 'datagram front-ends hand the framer one datagram at a time (shared with C09 R8)')
+    from .c09 import r8_one_datagram_per_framer_call
+    ck.guard(r8_one_datagram_per_framer_call, ck, cx, 'R6')
     sub = type(ck)(ck.pid, ck.tier)
     r5_per_connection_framer(sub, cx)
     for o in sub.obligations:
